@@ -221,8 +221,53 @@ func runC19(p *Program, r *Result) {
 				r.Bad(sub, "loop:stanzas", r.pos(ret), "the stanza loop returns success/no-error before all stanzas were examined")
 			}
 		}
+		// the loop is left before the last stanza only with an error or on a match: any other
+		// early exit would skip a later stanza that is addressed to this identity
+		set := l.blocks()
+		for b := range set {
+			for k, sb := range b.Succs {
+				if set[sb] || (b == l.Header && sb == l.Exit) {
+					continue
+				}
+				{
+					// an exit into a region from which only error returns are reachable is fine
+					errOnly := true
+					seen := map[*ssa.BasicBlock]bool{}
+					var walk func(x *ssa.BasicBlock)
+					walk = func(x *ssa.BasicBlock) {
+						if seen[x] || set[x] {
+							return
+						}
+						seen[x] = true
+						if ret, ok := x.Instrs[len(x.Instrs)-1].(*ssa.Return); ok {
+							rs := resultsOf(ret)
+							if len(rs) != 2 || !p.definitelyNonNil(rs[1], 0) {
+								errOnly = false
+							}
+						}
+						for _, y := range x.Succs {
+							walk(y)
+						}
+					}
+					walk(sb)
+					if errOnly {
+						continue
+					}
+				}
+				facts := tb.FactsAt(b)
+				if _, isIf := b.Instrs[len(b.Instrs)-1].(*ssa.If); isIf {
+					facts = tb.FactsOnEdge(b, k)
+				}
+				_, t1 := findFact(facts, isTypeEq)
+				_, t2 := findFact(facts, isTagEq)
+				if !t1 || !t2 {
+					okLoop = false
+					r.Bad(sub, "loop:stanzas", r.pos(b.Instrs[len(b.Instrs)-1]), "the stanza loop is left early on an edge that is neither an error return nor the type-equal and tag-equal match: a later stanza addressed to this identity would be skipped; facts: "+short(factStrings(facts)))
+				}
+			}
+		}
 		if okLoop {
-			r.OK(sub, "loop:stanzas", r.pos(l.Header.Instrs[0]), "range over the whole stanza slice; in-loop returns carry an error")
+			r.OK(sub, "loop:stanzas", r.pos(l.Header.Instrs[0]), "range over the whole stanza slice; early exits are error returns or the match")
 		}
 	}
 }
